@@ -342,4 +342,6 @@ func runC08(r *an.Run) {
 				}
 			}
 		})
+
+	fwdPkgPositions(r)
 }
